@@ -40,7 +40,13 @@ THEOREMS = [
     "PorepyVerif.C15.scalar_gradient_closed_sum_zero",
     "PorepyVerif.C15.pressure_jump_zero",
     "PorepyVerif.C15.applyRows_zero",
+    "PorepyVerif.C15.Biot2.biot2d_div_u_exact",
+    "PorepyVerif.C15.Biot2.biot2d_div_u_exact_alpha",
+    "PorepyVerif.C15.Biot2.biot2d_grad_p_const",
+    "PorepyVerif.C15.Biot2.biot2d_grad_p_const_iso",
+    "PorepyVerif.C15.Biot2.biot2d_stab_const",
 ]
+LEAN_DIRS = ["C13", "C11"]  # the assembled 2-D statements are proved on top of C13's certified MPSA model
 LEAN_MODULES = ["PorepyVerif.C15.Props"]
 AUDIT = "PorepyVerif/C15/Audit.lean"
 DRIVER = "PorepyVerif/C15/Driver.lean"
@@ -56,7 +62,9 @@ RULE = ("grids: 2-D Cartesian (nodes perturbed by 0 / 1/8 / 1/4 of the mesh size
         "cell-wise varying scalar (divergence part only; for these the coded first-side force and pressure-jump right-hand side are tied to "
         "the model). Constant pressure p dyadic. Configurations: continuity point eta default / 0 / 1/4 / 1/2, inverter python / numba, "
         "1-3 subproblems, partial discretisation around specified cells (rows are then required to be either untouched or exact, and the "
-        "specified cells' own rows to be written). non-trivial = at least 2 cells, A non-zero, p non-zero; distinct = distinct cases.")
+        "specified cells' own rows to be written). Stratum (20%): 2-3 coupling keywords given as plain numbers with different values. "
+        "About a third of the small 2-D cases also compare all four coupling matrices entry by entry with the Lean assembly on C13's "
+        "certified MPSA model. non-trivial = at least 2 cells, A non-zero, p non-zero; distinct = distinct cases.")
 TRUSTED = [
     "modelled, not verified: the MPSA local systems and their inversion (igrad), SubcellTopology, the index maps / Kronecker reorderings of "
     "_subcell_gradient_to_cell_scalar, _create_rhs_scalar_gradient, scalar_tensor_vector_prod, hf2f, the gluing of subproblems and of partial "
@@ -68,7 +76,9 @@ TRUSTED = [
     "and closedness is not claimed",
     "binary64 rounding: comparisons use tolerance 1e-8 relative to a scale derived from the inputs",
 ]
-EXPLANATION = ("CORE (partial): dimension-generic theorems over Q: divergence theorem for affine fields on any closed polytope cell with tensor "
+EXPLANATION = ("2-D: biot2d_div_u_exact / biot2d_grad_p_const are proved for the ASSEMBLED scheme on every well-formed, certified, all-Dirichlet grid "
+               "(exact sub-cell gradients are a theorem via C13's left-inverse certificates), and the assembled model's four coupling matrices are "
+               "compared entry-wise with the real ones. General dimension: CORE (partial): dimension-generic theorems over Q: divergence theorem for affine fields on any closed polytope cell with tensor "
                "coupling (sum_f (alpha n_f).u(x_f) = V alpha:A), the coded sub-cell volume form equals it when the sub-cell gradients are exact, the "
                "coded face force of a constant pressure is -p n_f^T alpha (= -alpha p n_f for a scalar coefficient) and sums to zero over a closed "
                "cell, the pressure-jump right-hand side vanishes for uniform alpha. Executable model evaluated exactly on rational grid geometry and "
@@ -395,10 +405,18 @@ def gen_case(rng, tier):
         case["nsub"] = rng.choice([2, 3])
     elif cfg == "partial" and g.num_cells >= 4:
         case["spec_cells"] = sorted(rng.sample(range(g.num_cells), rng.choice([1, 1, 2])))
-    if (case["nsub"] or case["spec_cells"] is not None) and rng.random() < 0.6:
+    if rng.random() < 0.2:
+        # stratum: >= 2 coupling keywords given as plain numbers with DIFFERENT values (a shared work array scaled in place
+        # by each coefficient in turn would give the later keys the product of the preceding coefficients)
+        vs = rng.sample([Fraction(1, 2), Fraction(3, 4), Fraction(2), Fraction(3), Fraction(5, 4), Fraction(1, 4), Fraction(3, 2)], 3)
+        case["keys"] = [{"name": f"k{i}", "mode": "scalar", "a": str(v), "as_int": bool(v.denominator == 1 and rng.random() < 0.5)}
+                        for i, v in enumerate(vs[:rng.choice([2, 2, 3])])]
+    elif (case["nsub"] or case["spec_cells"] is not None) and rng.random() < 0.6:
         # cell-wise coefficients exercise the restriction of the coupling tensors to subproblems / active cells
         vals = rng.sample([Fraction(1, 4), Fraction(1, 2), Fraction(1), Fraction(3, 2), Fraction(2), Fraction(4)], rng.randint(3, 5))
         case["keys"][0] = {"name": "k0", "mode": "hetero", "vals": [str(v) for v in vals], "mul": rng.choice([1, 1, 2, 3])}
+    if dim == 2 and case["spec_cells"] is None and g.num_cells <= (6 if not big else 10) and rng.random() < 0.5:
+        case["tie2d"] = True  # entry-wise comparison of the four coupling matrices with the assembled Lean model (C13.GridS)
     return case
 
 
@@ -509,6 +527,7 @@ def _real(case):
     first_cell = np.full(nf, -1)
     first_cell[st.fno_unique] = st.cno_unique
     out["first_cell"] = [int(c) for c in first_cell]
+    out["eta"] = eta
     for name in alphas:
         Dm = M[discr.displacement_divergence_matrix_key][name]
         Bm = M[discr.bound_displacement_divergence_matrix_key][name]
@@ -527,6 +546,8 @@ def _real(case):
             res["div_absmax"] = max(float(abs(Dm).max()) if Dm.nnz else 0.0, float(abs(Bm).max()) if Bm.nnz else 0.0)
             stab = Sm @ np.ones(nc)
             res["stab_rel"] = float(np.abs(stab).max() / max(float(abs(Sm).max()) if Sm.nnz else 0.0, 1e-300))
+        if case.get("tie2d") and shapes_ok and name == case["keys"][0]["name"]:
+            res["dense"] = [Dm.toarray(), Bm.toarray(), Gm.toarray(), Sm.toarray()]
         aT = alphas[name][0]
         if not isinstance(aT, pp.SecondOrderTensor):
             aT = pp.SecondOrderTensor(aT * np.ones(nc))
@@ -678,7 +699,40 @@ def model_ops(case):
                 fo["alphaP"], fo["alphaM"] = _fm(Ms[plus]), _fm(Ms[minus])
             faces.append(fo)
         ops.append({"op": "grid", "d": d, "A": case["A"], "b": case["b"], "p": case["p"], "cells": cells, "faces": faces})
+    if _tie2d(case, R):
+        ops.append(_biot2d_op(case, R))
     return ops
+
+
+def _tie2d(case, R):
+    return bool(case.get("tie2d")) and R["d"] == 2 and not R["degenerate"] and case.get("spec_cells") is None \
+        and "dense" in R["keys"][case["keys"][0]["name"]]
+
+
+def _fl(v):
+    return [frac(float(x)) for x in v]
+
+
+def _biot2d_op(case, R):
+    """The whole 2-D grid as the code sees it (format of C13's op "grid") plus the first key's coupling tensor per cell."""
+    g = R["g"]
+    fn = g.face_nodes.tocsc()
+    cf = g.cell_faces.tocsr()
+    fcs = []
+    for f in range(g.num_faces):
+        row = cf.getrow(f)
+        order = np.argsort(row.indices)
+        fcs.append([[int(row.indices[k]), frac(float(row.data[k]))] for k in order])
+    bf = set(int(f) for f in g.get_all_boundary_faces())
+    Ms = _key_matrices(case["keys"][0], 2, g.num_cells)
+    return {"op": "biot2d", "nodes": [_fl(g.nodes[:2, v]) for v in range(g.num_nodes)],
+            "face_nodes": [[int(x) for x in fn.indices[fn.indptr[f]:fn.indptr[f + 1]]] for f in range(g.num_faces)],
+            "face_cells": fcs, "cell_centers": [_fl(g.cell_centers[:2, c]) for c in range(g.num_cells)],
+            "face_centers": [_fl(g.face_centers[:2, f]) for f in range(g.num_faces)],
+            "face_normals": [_fl(g.face_normals[:2, f]) for f in range(g.num_faces)],
+            "vol_share": _fl(g.cell_volumes / g.num_cell_nodes()),
+            "is_dir": [f in bf for f in range(g.num_faces)],
+            "eta": frac(R["eta"]), "lam": case["lam"], "mu": case["mu"], "alpha": [_fm(M) for M in Ms]}
 
 
 def _r(x):
@@ -717,6 +771,10 @@ def impl_run(case):
             if not R["partial"]:
                 o["stab"] = res["stab_rel"]
         out["keys"][name] = o
+    if _tie2d(case, R):
+        Dd, Bd, Gd, Sd = R["keys"][case["keys"][0]["name"]]["dense"]
+        out["tie2d"] = {"hyp": {"wf": True, "alldir": True, "certified": True}, "vol": [_r(v) for v in g.cell_volumes],
+                        "div": Dd.tolist(), "bdiv": Bd.tolist(), "gradp": Gd.tolist(), "stab": Sd.tolist()}
     return out
 
 
@@ -765,12 +823,43 @@ def model_decode(outs, case):
                 m["stab"] = 0.0
         out["keys"][name] = m
     out["closed"] = closed if exact else None
+    if _tie2d(case, R):
+        o = outs[len(case["keys"])]
+        if "err" in o:
+            return {"driver_error": o}
+        t = {"hyp": {"wf": o["wf"], "alldir": o["alldir"], "certified": o["certified"]}, "vol": [float(Fraction(x)) for x in o["vol"]]}
+        if o["certified"]:
+            nc, nf = g.num_cells, g.num_faces
+            fl = lambda rows: np.array([[float(Fraction(x)) for x in r] for r in rows])
+            t["div"] = fl(o["div_cols"]).T.reshape(nc, 2 * nc).tolist()      # columns 2c+i
+            t["bdiv"] = fl(o["bdiv_cols"]).T.reshape(nc, 2 * nf).tolist()    # columns 2f+i
+            gp = np.array([[[float(Fraction(x)) for x in fa] for fa in col] for col in o["gradp_cols"]])  # cell, face, comp
+            t["gradp"] = gp.transpose(1, 2, 0).reshape(2 * nf, nc).tolist()  # rows 2f+a
+            t["stab"] = fl(o["stab_cols"]).T.reshape(nc, nc).tolist()
+        out["tie2d"] = t
     return out
 
 
 def compare(impl, model, case):
     if "harness_exc" in impl:
         return "real code raised: " + impl["harness_exc"]
+    impl, model = dict(impl), dict(model)
+    ti, tm = impl.pop("tie2d", None), model.pop("tie2d", None)
+    if (ti is None) != (tm is None):
+        return "tie2d: present on one side only"
+    if ti is not None:
+        r = deep_compare({"hyp": ti["hyp"], "vol": ti["vol"]}, {"hyp": tm["hyp"], "vol": tm["vol"]}, "tie2d", tol=TOL)
+        if r:
+            return r
+        for k in ("div", "bdiv", "gradp", "stab"):
+            a, b = np.array(ti[k]), np.array(tm.get(k, []))
+            if a.shape != b.shape:
+                return f"tie2d.{k}: shape {a.shape} vs {b.shape}"
+            sc = max(float(np.abs(b).max(initial=0.0)), 1e-300)
+            err = np.abs(a - b) / sc
+            if err.size and err.max() > TOL:
+                i, j = np.unravel_index(int(np.argmax(err)), err.shape)
+                return f"tie2d.{k}[{i}][{j}]: real matrix entry {float(a[i, j])!r} vs assembled Lean model {float(b[i, j])!r} (relative to the largest entry {sc:.3g})"
     return deep_compare(impl, model, tol=TOL)
 
 
@@ -796,6 +885,8 @@ def nontrivial(case):
 
 def shrink_candidates(case):
     gs = case["grid"]
+    if case.get("tie2d"):
+        yield {k: v for k, v in case.items() if k != "tie2d"}
     if len(case["keys"]) > 1:
         for k in case["keys"]:
             yield dict(case, keys=[k])
@@ -855,6 +946,8 @@ def stats(cases, impl_outs):
             "fields": dict(Counter(c.get("field", "general") for c in cases)),
             "coupling_modes": dict(Counter(k["mode"] for c in cases for k in c["keys"])),
             "int_coefficients": sum(1 for c in cases for k in c["keys"] if k.get("as_int")),
+            "entrywise_2d_ties": sum(1 for o in impl_outs if isinstance(o, dict) and "tie2d" in o),
+            "scalar_keys_distinct_values": sum(1 for c in cases if len({k["a"] for k in c["keys"] if k["mode"] == "scalar"}) >= 2),
             "two_keys": sum(1 for c in cases if len(c["keys"]) == 2),
             "zero_pressure": sum(1 for c in cases if _F(c["p"]) == 0),
             "eta_nondefault": sum(1 for c in cases if c.get("eta") is not None),
